@@ -1217,3 +1217,13 @@ Proof.
   - apply (res_rel_no_bug _ _ (from_ether_type_rel bs et H) b). now rewrite E.
   - apply (res_rel_no_bug _ _ (from_ip_rel bs H) b). now rewrite E.
 Qed.
+
+Theorem strict_total bs et : bytes_ok bs ->
+  (exists r, vres_of (SlicedPacket.from_ethernet bs) = r /\ forall b, r <> VBug b) /\
+  (forall b, SlicedPacket.from_linux_sll bs <> Bug b) /\
+  (forall b, SlicedPacket.from_ether_type et bs <> Bug b) /\
+  (forall b, SlicedPacket.from_ip bs <> Bug b).
+Proof.
+  intros H. split; [|repeat split; intros b; apply (strict_never_bug bs et b H)].
+  eexists. split; [reflexivity|]. intros b. apply (res_rel_no_bug _ _ (from_ethernet_rel bs H)).
+Qed.
